@@ -955,15 +955,26 @@ func (m *Memory) checkGc() {
 		return
 	}
 
-	timeDb := gorm.G[Time](m.Db)
-	_, err := timeDb.
-		Where("machine_id = ?", m.machRec.ID).
-		Where("id NOT IN (?)", timeDb.
-			Select("id").
-			Where("machine_id = ?", m.machRec.ID).
-			Order("id DESC").
-			Limit(m.Cfg.MaxRecords)).
-		Delete(m.Ctx)
+	defer m.gcMx.Unlock()
+
+	// keep the newest MaxRecords (ticks first, they reference times)
+	next := m.nextId.Load()
+	if next <= uint64(m.Cfg.MaxRecords)+1 {
+		return
+	}
+	upper := next - uint64(m.Cfg.MaxRecords) - 1
+	err := m.Db.Transaction(func(dbTx *gorm.DB) error {
+		_, err := gorm.G[Tick](dbTx).
+			Where("machine_id = ? AND time_id <= ?", m.machRec.ID, upper).
+			Delete(m.Ctx)
+		if err != nil {
+			return err
+		}
+		_, err = gorm.G[Time](dbTx).
+			Where("machine_id = ? AND id <= ?", m.machRec.ID, upper).
+			Delete(m.Ctx)
+		return err
+	})
 	if err != nil {
 		m.onErr(fmt.Errorf("failed to GC: %w", err))
 	}
@@ -990,7 +1001,7 @@ func (m *Memory) Sync() error {
 	defer m.mx.Unlock()
 	m.syncMx.Lock()
 	defer m.syncMx.Unlock()
-	m.writeDb(false)
+	<-m.writeDb(false)
 
 	m.log("sync OK")
 
@@ -998,9 +1009,11 @@ func (m *Memory) Sync() error {
 }
 
 // writeDb requires [Memory.mx].
-func (m *Memory) writeDb(rLocked bool) {
+func (m *Memory) writeDb(rLocked bool) <-chan struct{} {
+	done := make(chan struct{})
 	if m.SavePending.Load() <= 0 {
-		return
+		close(done)
+		return done
 	}
 
 	q := m.queue
@@ -1018,6 +1031,7 @@ func (m *Memory) writeDb(rLocked bool) {
 
 	// fork
 	go m.savePool.Go(func() error {
+		defer close(done)
 		if m.disposed.Load() {
 			return nil
 		}
@@ -1025,30 +1039,32 @@ func (m *Memory) writeDb(rLocked bool) {
 			defer m.syncMx.RUnlock()
 		}
 
-		// sync mach record TODO skip saving states
-		if err := m.Db.Save(machRec).Error; err != nil {
-			m.onErr(fmt.Errorf("failed to save: %w", err))
-			return err
-		}
-		// TODO optimize: parallel save?
-		// times
-		dbTimes := gorm.G[Time](m.Db)
-		err := dbTimes.CreateInBatches(m.Mach.Context(), &times, 100)
+		// one transaction, so the GC never sees times without their ticks
+		err := m.Db.Transaction(func(dbTx *gorm.DB) error {
+			// sync mach record TODO skip saving states
+			if err := dbTx.Save(machRec).Error; err != nil {
+				return fmt.Errorf("failed to save: %w", err)
+			}
+			// times
+			err := gorm.G[Time](dbTx).CreateInBatches(m.Mach.Context(), &times, 100)
+			if err != nil {
+				return err
+			}
+			// ticks
+			return gorm.G[Tick](dbTx).CreateInBatches(m.Mach.Context(), &ticks, 100)
+		})
 		if err != nil {
 			m.onErr(err)
 			return err
 		}
 
-		// ticks
-		dbTicks := gorm.G[Tick](m.Db)
-		err = dbTicks.CreateInBatches(m.Mach.Context(), &ticks, 100)
-		if err != nil {
-			m.onErr(err)
-			return err
-		}
+		// stats
+		m.Saved.Add(uint64(l))
 
 		return nil
 	})
+
+	return done
 }
 
 func (m *Memory) log(msg string, args ...any) {
